@@ -144,6 +144,8 @@ pub mod itoa {
         { unimplemented!() }
     }
 }
+/// is the value neither NaN nor +-inf (nothing in the writer establishes this for a gauge value)
+pub uninterp spec fn f64_is_finite(v: f64) -> bool;
 pub mod ryu {
     use super::*;
     #[verifier::external_body]
@@ -154,6 +156,13 @@ pub mod ryu {
         // ASSUMED: shortest round-trip rendering of an f64 is 1..=24 bytes
         #[verifier::external_body]
         pub fn format(&mut self, v: f64) -> (r: &str)
+            ensures str_bytes(r) == ryu_bytes(v),
+        { unimplemented!() }
+        // ryu: "This function does not check for NaN or infinity. If the input number is not a finite float, the printed
+        // representation will be some correctly formatted but unspecified numerical value" -- so finiteness is the caller's obligation
+        #[verifier::external_body]
+        pub fn format_finite(&mut self, v: f64) -> (r: &str)
+            requires f64_is_finite(v),
             ensures str_bytes(r) == ryu_bytes(v),
         { unimplemented!() }
     }
